@@ -132,7 +132,7 @@ class G:
         if ty == "CHAR":
             return [charlit(r.choice("abcxyzABCXYZ019 #_.,")) ]
         if ty == "STRING":
-            return [strlit("".join(r.choice("abcdeXYZ 012#.,") for _ in range(r.randint(0, 6))))]
+            return [strlit("".join(r.choice("abcdeXYZ 012#.,\n\t\"") for _ in range(r.randint(0, 6))))]
         if ty == "DATE":
             return ["%d/%d/%d" % (r.randint(1, 28), r.randint(1, 12), r.choice([1999, 2000, 2020, 2024, 1970, r.randint(1, 9999)]))]
         if ty in self.enums:
